@@ -543,6 +543,8 @@ def dt(*args, dialect = 'uk', none = datetime.datetime.now, tzinfo = None):
     args1 = as_list(args[1:])
     args = [t] + args1    
     if isinstance(t, np.datetime64):
+        if np.isnat(t): # np2dt gives None, which would be read as 'now' below
+            return NaT
         t = np2dt(t)
         if tzinfo:
             t = tz_replace(t, tzinfo)
